@@ -150,10 +150,11 @@ pub fn encode_bytes(bytes: &[u8], rng: &mut Rng, extra: u64) -> String {
 // ------------------------------------------------------------------------------------------------
 // Patterns
 
-const LIT_TINY: &[&str] = &["a", "b", "ab", "a%62", "%61b", "c", "a%2Fb", "a%2fb", "%C3%A9", "%c3%a9", "node"];
+// (the last entries are escapes that do not decode to valid UTF-8: only octet-wise comparison tells them apart)
+const LIT_TINY: &[&str] = &["a", "b", "ab", "a%62", "%61b", "c", "a%2Fb", "a%2fb", "%C3%A9", "%c3%a9", "node", "%FF", "%FE", "%C3", "caf%E9", "caf%E8"];
 const LIT_POOL: &[&str] = &[
     "meta:node", "a", "b", "ab", "a%62", "%61b", "%61%62", "node", "unit", "a%2Fb", "a%2fb", "%C3%A9", "%c3%a9", "a.b", "a-b",
-    "x_y", "~", "1", "A", "a%20b", "a+b", "%25", "a%3Fb", "(a)", "a,b;c=d", "$", "a@b", "%00", "%FF",
+    "x_y", "~", "1", "A", "a%20b", "a+b", "%25", "a%3Fb", "(a)", "a,b;c=d", "$", "a@b", "%00", "%FF", "%FE", "%80", "%C3", "%E2%82", "%E2%83", "caf%E9", "caf%E8",
 ];
 /// Valid pattern literals that are not URI path text as they stand.
 const LIT_HOSTILE: &[&str] = &["é", "a b", "a?b", "a#b", "%", "%zz", "a%", "日本", "%f", "a%6", "?", "#x", "a\u{0}b", "a~b", "a:b", "a\\b", "{a}"];
